@@ -26,7 +26,8 @@ def toks(*items):
 STRICT = '{MkOpts(FALSE, FALSE)}'
 ALLOPTS = 'AllOpts'
 
-TREE_INVS = ['Dump', 'OneCharPerStep', 'CodeMapOK', 'ErrorPointsAtInput', 'ConservativeExtension', 'Viable']
+TREE_INVS = ['Dump', 'OneCharPerStep', 'CodeMapOK', 'ErrorPointsAtInput', 'ConservativeExtension', 'Viable',
+             'AcceptIffGrammar', 'ValueIsDenotation']
 
 # name -> (alphabet, prefix, suffix, optset, {tier: maxlen})
 PARSER_TREES = {
